@@ -1,6 +1,7 @@
 import Mathlib.LinearAlgebra.Matrix.Rank
 import Mathlib.LinearAlgebra.Matrix.NonsingularInverse
 import Mathlib.Data.Complex.Basic
+import Mathlib.LinearAlgebra.Matrix.Charpoly.Basic
 /-! # C13 — DMD eigenvalues, modes and rank agree with the returned operator
 
 Over `Matrix _ _ ℂ`.  `Dmd` / `Dmdc` return `A_r = real(V Λ V⁺)` with `V⁺` a left inverse of the mode matrix
@@ -82,5 +83,41 @@ theorem C13_spectrum_partial (V : Matrix n r ℂ) (Vp : Matrix r n ℂ) (lam : r
   have := congrFun hzev i
   simp only [mulVec_diagonal, Pi.smul_apply, smul_eq_mul] at this
   exact mul_right_cancel₀ hi this
+
+section charpoly
+open Polynomial
+
+/-- **the whole spectrum, with multiplicities.**  With a left inverse of the modes, the characteristic polynomial of
+the reconstructed operator `V Λ V⁺` is that of `Λ` up to powers of `X`:
+`X^r · χ(VΛV⁺) = X^n · ∏ᵢ (X − λᵢ)`.  Hence the non-zero eigenvalues of the state-transition block, counted with
+algebraic multiplicity, are exactly the non-zero reported `eigenvalues_`, and the remaining `n − r` (+ the number of
+zero `λᵢ`) eigenvalues are zero. -/
+theorem C13_charpoly (V : Matrix n r ℂ) (Vp : Matrix r n ℂ) (lam : r → ℂ) (hV : Vp * V = 1) :
+    (X : ℂ[X]) ^ Fintype.card r * (V * diagonal lam * Vp).charpoly
+      = X ^ Fintype.card n * ∏ i, (X - C (lam i)) := by
+  have h := charpoly_mul_comm' V (diagonal lam * Vp)
+  have e : diagonal lam * Vp * V = diagonal lam := by rw [Matrix.mul_assoc, hV, Matrix.mul_one]
+  rw [e, charpoly_diagonal, ← Matrix.mul_assoc] at h
+  exact h
+
+/-- in particular every non-zero root of the characteristic polynomial is a reported eigenvalue and vice versa -/
+theorem C13_spectrum (V : Matrix n r ℂ) (Vp : Matrix r n ℂ) (lam : r → ℂ) (hV : Vp * V = 1) (μ : ℂ) (hμ : μ ≠ 0) :
+    (V * diagonal lam * Vp).charpoly.IsRoot μ ↔ ∃ i, lam i = μ := by
+  have h := congrArg (fun p => Polynomial.eval μ p) (C13_charpoly V Vp lam hV)
+  simp only [eval_mul, eval_pow, eval_X, eval_prod, eval_sub, eval_C] at h
+  have hp : ∀ k : ℕ, μ ^ k ≠ 0 := fun k => pow_ne_zero k hμ
+  constructor
+  · intro hr
+    rw [IsRoot.def] at hr
+    rw [hr, mul_zero] at h
+    have := (mul_eq_zero.mp h.symm).resolve_left (hp _)
+    obtain ⟨i, _, hi⟩ := Finset.prod_eq_zero_iff.mp this
+    exact ⟨i, (sub_eq_zero.mp hi).symm⟩
+  · rintro ⟨i, hi⟩
+    have hz : ∏ j, (μ - lam j) = 0 := Finset.prod_eq_zero (Finset.mem_univ i) (by rw [hi, sub_self])
+    rw [hz, mul_zero] at h
+    exact (mul_eq_zero.mp h).resolve_left (hp _)
+
+end charpoly
 
 end Pk.C13
